@@ -773,13 +773,13 @@ def tabulate_ca(d, rs, weighted):
 
 class StrandEndToEnd(EnumContract):
     name = "e2e:_Strand(response tabulated from respondents) vs first principles"
-    props = ("C01", "C02", "C03", "C04", "C05", "C06", "C09", "C11", "C17")
+    props = ("C01", "C02", "C03", "C04", "C05", "C06", "C09", "C11", "C15", "C17")
     bound = ("1-D responses over CAT / CAT_DATE / MR dimensions and categorical arrays read as a stack of strands, <= 4 "
              "categories (missing ones anywhere) or <= 3 items, <= 25 respondents with fractional weights, up to 3 random "
              "subtotals / differences (multi-term, stale, overlapping), hide / prune / explicit order; seeded sample")
     clauses = ("strand-counts", "strand-bases", "strand-proportions", "strand-stderr", "strand-population",
                "strand-subtotals", "strand-visibility", "strand-labels", "strand-ranges", "strand-exception", "ca-stack",
-               "ca-slice", "strand-min-base-mask", "strand-valid-counts")
+               "ca-slice", "strand-min-base-mask", "strand-valid-counts", "strand-share-sum")
 
     def cases(self, cfg, seed, thorough):
         rnd = random.Random(7000 + seed)
@@ -867,7 +867,9 @@ class StrandEndToEnd(EnumContract):
             vc = [sum(1 for r, v in zip(rs, vals) if r["a"][0] == k and v is not None) for k in range(ncat)]
             mean = [(sum(v for r, v in zip(rs, vals) if r["a"][0] == k and v is not None) / vc[k]) if vc[k] else {"?": -8} for k in range(ncat)]
             meta = {"references": {"alias": "num", "name": "num"}, "type": {"class": "numeric"}}
+            sums_raw = [sum(v for r, v in zip(rs, vals) if r["a"][0] == k and v is not None) if vc[k] else None for k in range(ncat)]
             resp["result"]["measures"]["mean"] = {"data": mean, "n_missing": 0, "metadata": meta}
+            resp["result"]["measures"]["sum"] = {"data": [x if x is not None else {"?": -8} for x in sums_raw], "n_missing": 0, "metadata": meta}
             resp["result"]["measures"]["valid_count_unweighted"] = {"data": vc, "n_missing": 0, "metadata": meta}
             p = Cube(resp, transforms=copy.deepcopy(tr) or None, population=1000).partitions[0]
             t = tr.get("rows_dimension") or {}
@@ -886,6 +888,17 @@ class StrandEndToEnd(EnumContract):
             exp = [base[o] if o >= 0 else subs[o + S] for o in order]
             if not close(np.asarray(p.unweighted_counts, dtype=float), exp):
                 bad.add("strand-valid-counts")
+            # C15: a strand's share of sum = sum / total of the base rows (unavailable sums
+            # skipped in the total), for base rows and subtotals alike
+            nan = float("nan")
+            bs = [sums_raw[i] if sums_raw[i] is not None else nan for i in V]
+            total = math.fsum(x for x in bs if x == x)
+            sh_base = [div(x, total) if x == x else nan for x in bs]
+            sh_sub = [div(math.fsum(bs[i] for i in a) - math.fsum(bs[i] for i in b), total) for a, b in ins]
+            exp_sh = [sh_base[o] if o >= 0 else sh_sub[o + S] for o in order]
+            exp_sums = [bs[o] if o >= 0 else (math.fsum(bs[i] for i in ins[o + S][0]) - math.fsum(bs[i] for i in ins[o + S][1])) for o in order]
+            if not close(np.asarray(p.share_sum, dtype=float), exp_sh, 1e-9) or not close(np.asarray(p.sums, dtype=float), exp_sums, 1e-9):
+                bad.add("strand-share-sum")
         except Exception as e:
             bad.add("strand-exception:%s" % type(e).__name__)
         return bad
